@@ -259,6 +259,41 @@ def unit_eval_matched(ctx, decision, eval_names):
         ctx.oblige(f"{fnm}[{tag}]/post(counts and arrays forwarded; tp<=min(n_pred,n_ref))", p.pc, g4, func=QN, replay="c02.eval", info=info)
 
 
+
+def unit_eval_frame(ctx):
+    """evaluate_matched_instance does not modify what it is given: the metric list (the evaluator's own configuration, possibly the
+    shared default argument) is unchanged on every path, whether the decision metric is one of the evaluated metrics or not (then the
+    call is rejected with an AssertionError), and no attribute of the pair is written."""
+    eng = ctx.engine()
+    QN = IE + "evaluate_matched_instance"
+
+    def ei_summary(e, f, args, kwargs):
+        return {m: SymReal(e.fresh("v", R), np=True) for m in args[3]}
+    eng.summaries[IE + "_evaluate_instance"] = ei_summary
+    for decision, names in (("ASSD", ["DSC", "IOU"]), ("IOU", ["DSC", "IOU"]), (None, ["DSC"])):
+        def mk(e, decision=decision, names=names):
+            # two matched instances, concretely: the frame does not depend on how many there are
+            pair = e.new_obj(PP + "MatchedInstancePair", _prediction_arr="PRED", _reference_arr="REF", matched_instances=[1, 2],
+                             n_prediction_instance=2, n_reference_instance=2)
+            mets = [metric(e, m) for m in names]
+            kw = dict(eval_metrics=mets, decision_metric=(metric(e, decision) if decision else None), decision_threshold=(0.5 if decision else None))
+            return [pair], kw, {"mets": mets, "names": list(names), "pair": pair, "ev0": len(e.events)}
+        paths = eng.run(QN, mk)
+        tag = f"{decision or 'none'}|{','.join(names)}"
+        nm = f"instance_evaluator.evaluate_matched_instance[{tag}]"
+        ctx.expect(f"{nm}: at least one path", len(paths) >= 1)
+        for pi, p in enumerate(paths):
+            mets = p.state["mets"]
+            same = [m._name for m in mets] == p.state["names"]
+            writes = [ev for ev in p.events[p.state["ev0"]:] if ev[0] == "setattr" and ev[1] == p.state["pair"].oid]
+            ctx.oblige(f"{nm}/frame(the metric list handed in is unchanged; the pair is not written)#p{pi}", [], z3.BoolVal(bool(same and not writes)), func=QN,
+                       replay="c02.frame", info={"structural": True, "after": str([m._name for m in mets]), "decision": decision, "metrics": ",".join(names)})
+            if decision is not None and decision not in names:
+                ok = p.kind == "raise" and p.exc.name() == "AssertionError"
+                ctx.oblige(f"{nm}/pre(a decision metric that is not evaluated per instance is rejected with an AssertionError)#p{pi}", [], z3.BoolVal(bool(ok)), func=QN,
+                           replay="c02.frame", info={"structural": True, "decision": decision, "metrics": ",".join(names)})
+
+
 def build(ctx):
     ctx.trust("np.average(list)*len == sum of the elements; np.std default = population standard deviation (uninterpreted np_pstd)",
               "contract of _evaluate_instance (dict with exactly the evaluated metrics, value a function of the instance) - proved in C06/C10 units",
@@ -268,6 +303,7 @@ def build(ctx):
     for dec in (None, "IOU", "DSC", "ASSD"):
         ctx.unit(f"evaluate_matched_instance[{dec}]", lambda dec=dec: unit_eval_matched(ctx, dec, ["DSC", "IOU", "ASSD"]))
     ctx.unit("evaluate_matched_instance[RVD|all]", lambda: unit_eval_matched(ctx, "IOU", ["DSC", "IOU", "ASSD", "RVD"]))
+    ctx.unit("evaluate_matched_instance[frame]", lambda: unit_eval_frame(ctx))
     # tp/fp/fn count label-matched instances: "matched" means what the relabelling after matching made equal (C04), regenerated here
     include_stage(ctx, "C04")
     # the decision metric / threshold the evaluation receives is the configured one, per call and per group (C12), regenerated here
@@ -280,6 +316,8 @@ def concretise(ctx, o, r):
         return stage_concretise(ctx, o, r)
     m = r.get("model") or {}
     gi = lambda k, d=0: model_int(m.get(k, d))
+    if o.replay == "c02.frame":
+        return {"decision": o.info.get("decision"), "metrics": o.info.get("metrics")}
     if o.replay == "c02.result":
         tp = max(0, min(gi("tp"), 6))
         lists = {}
